@@ -1,5 +1,5 @@
 (* Lemmas about Model/Flags.v (C11). *)
-From Mage Require Import Base.Strs Model.Flags.
+From Mage Require Import Base.Strs Model.Flags Proof.FlagPkg_facts.
 
 (* ------------------------------------------------------------------ environments *)
 Lemma eqb_sym_false : forall a b, String.eqb a b = false -> String.eqb b a = false.
@@ -259,18 +259,18 @@ Proof.
 Qed.
 
 (* ------------------------------------------------------------------ C11_accessors *)
-Lemma mage_a_verbose : forall lay f e, a_verbose (mage_args true lay f e) = eff_verbose f e.
+Lemma mage_a_verbose0 : forall lay f e, a_verbose (mage_args true lay f no_cflags e) = eff_verbose f e.
 Proof.
   intros. unfold Flags.mage_args, Flags.gm_parse. simpl. rewrite tpl_parse_bool_mg. unfold mg_bool, getenv.
   rewrite child_env_lookup, appended_verbose, parse_bool_b01. apply inv_verbose.
 Qed.
 
-Theorem accessors_mage : forall lay f e,
-  let te := mage_target_env true lay f e in
+Theorem accessors_mage0 : forall lay f e,
+  let te := mage_target_env true lay f no_cflags e in
   mg_verbose te = eff_verbose f e /\ mg_debug te = eff_debug f e /\ mg_gocmd te = eff_gocmd f e.
 Proof.
   intros lay f e te. subst te. unfold Flags.mage_target_env, gm_target_env. repeat split.
-  - unfold mg_verbose, mg_bool. rewrite getenv_setenv_same, parse_bool_b01. apply mage_a_verbose.
+  - unfold mg_verbose, mg_bool. rewrite getenv_setenv_same, parse_bool_b01. apply mage_a_verbose0.
   - unfold mg_debug, mg_bool, getenv. rewrite lookup_setenv. simpl (String.eqb DEBUG VERBOSE). cbv iota.
     rewrite child_env_lookup, appended_debug, parse_bool_b01. apply inv_debug.
   - unfold mg_gocmd, getenv. rewrite lookup_setenv. simpl (String.eqb GOCMD VERBOSE). cbv iota.
@@ -297,8 +297,8 @@ Qed.
 (* before the repair: -v=false / -debug=false did not reach the target *)
 Theorem before_repair_refuted :
   exists lay f e,
-    mg_verbose (mage_target_env false lay f e) <> eff_verbose f e /\
-    mg_debug (mage_target_env false lay f e) <> eff_debug f e.
+    mg_verbose (mage_target_env false lay f no_cflags e) <> eff_verbose f e /\
+    mg_debug (mage_target_env false lay f no_cflags e) <> eff_debug f e.
 Proof.
   exists {| has_magefiles_dir := false; top_has_magefiles := false |}.
   exists {| f_v := Some false; f_debug := Some false; f_l := None; f_h := None; f_t := None;
@@ -308,10 +308,10 @@ Proof.
 Qed.
 
 (* ------------------------------------------------------------------ C11_env_passthrough *)
-Theorem env_passthrough : forall fixed lay f e k,
-  magefile_key k = false -> lookup k (mage_target_env fixed lay f e) = lookup k e.
+Theorem env_passthrough : forall fixed lay f cf e k,
+  magefile_key k = false -> lookup k (mage_target_env fixed lay f cf e) = lookup k e.
 Proof.
-  intros fixed lay f e k Hk. unfold Flags.mage_target_env, gm_target_env.
+  intros fixed lay f cf e k Hk. unfold Flags.mage_target_env, gm_target_env.
   rewrite lookup_setenv, (not_magefile_key_neq k VERBOSE Hk eq_refl).
   rewrite child_env_lookup, appended_keys by exact Hk. reflexivity.
 Qed.
@@ -323,8 +323,8 @@ Proof.
 Qed.
 
 (* ------------------------------------------------------------------ C11_magefile_vars_only_added *)
-Theorem magefile_vars : forall lay f e,
-  let te := mage_target_env true lay f e in
+Theorem magefile_vars0 : forall lay f e,
+  let te := mage_target_env true lay f no_cflags e in
   let inv := invoke lay (parse f e) in
   (forall k, forwarded_key k = false -> lookup k te = lookup k e) /\
   lookup VERBOSE te = Some (b01 (eff_verbose f e)) /\
@@ -339,7 +339,7 @@ Proof.
     assert (String.eqb k VERBOSE = false) as ->.
     { unfold forwarded_key, in_strs in Hk. simpl in Hk. apply orb_false_elim in Hk. tauto. }
     rewrite child_env_lookup, appended_other by exact Hk. reflexivity.
-  - rewrite lookup_setenv, String.eqb_refl. rewrite mage_a_verbose. reflexivity.
+  - rewrite lookup_setenv, String.eqb_refl. rewrite mage_a_verbose0. reflexivity.
   - rewrite lookup_setenv. simpl (String.eqb DEBUG VERBOSE). cbv iota.
     rewrite child_env_lookup, appended_debug, inv_debug. reflexivity.
   - rewrite lookup_setenv. simpl (String.eqb GOCMD VERBOSE). cbv iota.
@@ -378,15 +378,15 @@ Definition roundtrip (f : flags) : Prop :=
 Lemma string_nonempty_b01 : forall b, String.eqb (b01 b) "" = false.
 Proof. destruct b; reflexivity. Qed.
 
-Lemma mage_effective : forall lay f e, roundtrip f ->
-  eff_of (mage_args true lay f e) =
+Lemma mage_effective0 : forall lay f e, roundtrip f ->
+  eff_of (mage_args true lay f no_cflags e) =
   {| e_verbose := eff_verbose f e;
      e_list := if flag_or (f_l f) false then true else tpl_parse_bool LIST e;
      e_help := if flag_or (f_h f) false then true else tpl_parse_bool HELP e;
      e_timeout := if (0 <? flag_or (f_t f) 0)%Z then flag_or (f_t f) 0%Z else tpl_parse_duration TIMEOUT e |}.
 Proof.
   intros lay f e RT. unfold eff_of. f_equal.
-  - apply mage_a_verbose.
+  - apply mage_a_verbose0.
   - unfold Flags.mage_args, Flags.gm_parse. simpl. unfold tpl_parse_bool, getenv.
     rewrite child_env_lookup, appended_list. simpl. destruct (flag_or (f_l f) false); reflexivity.
   - unfold Flags.mage_args, Flags.gm_parse. simpl. unfold tpl_parse_bool, getenv.
@@ -409,10 +409,10 @@ Lemma bin_effective : forall cf e,
 Proof. reflexivity. Qed.
 
 (* (a) the same options given to the compiled binary as flags *)
-Theorem same_effect_flags : forall lay f e, roundtrip f -> no_explicit_off f ->
-  eff_of (mage_args true lay f e) = eff_of (bin_args (cflags_of f) e).
+Theorem same_effect_flags0 : forall lay f e, roundtrip f -> no_explicit_off f ->
+  eff_of (mage_args true lay f no_cflags e) = eff_of (bin_args (cflags_of f) e).
 Proof.
-  intros lay f e RT (NL & NH & NT). rewrite mage_effective by exact RT. rewrite bin_effective.
+  intros lay f e RT (NL & NH & NT). rewrite mage_effective0 by exact RT. rewrite bin_effective.
   unfold cflags_of, eff_verbose; simpl. f_equal.
   - unfold flag_or. destruct (f_v f); [reflexivity|]. rewrite tpl_parse_bool_mg, mg_bool_var_true. reflexivity.
   - destruct (f_l f) as [[|]|]; simpl; try reflexivity. congruence.
@@ -434,10 +434,10 @@ Proof.
     try destruct (0 <? d)%Z; repeat split; reflexivity.
 Qed.
 
-Theorem same_effect_vars : forall lay f e, roundtrip f ->
-  eff_of (mage_args true lay f e) = eff_of (bin_args no_cflags (e ++ vars_of f)).
+Theorem same_effect_vars0 : forall lay f e, roundtrip f ->
+  eff_of (mage_args true lay f no_cflags e) = eff_of (bin_args no_cflags (e ++ vars_of f)).
 Proof.
-  intros lay f e RT. rewrite mage_effective by exact RT. rewrite bin_effective.
+  intros lay f e RT. rewrite mage_effective0 by exact RT. rewrite bin_effective.
   destruct (lookup_vars_of f) as (LV & LL & LH & LT).
   unfold no_cflags; simpl. f_equal.
   - unfold eff_verbose. rewrite tpl_parse_bool_mg. unfold mg_bool, getenv. rewrite lookup_app, LV.
@@ -455,6 +455,154 @@ Proof.
     rewrite P. reflexivity.
 Qed.
 
+(* ------------------------------------------------------------------ the compiled program's own flags
+   (the words behind a consumed "--"): they are laid over what the environment RunCompiled built says *)
+Definition overlay (cf : cflags) (x : effective) : effective :=
+  {| e_verbose := flag_or (c_v cf) (e_verbose x); e_list := flag_or (c_l cf) (e_list x);
+     e_help := flag_or (c_h cf) (e_help x); e_timeout := flag_or (c_t cf) (e_timeout x) |}.
+
+Lemma gm_parse_overlay : forall cf e, eff_of (gm_parse cf e) = overlay cf (eff_of (gm_parse no_cflags e)).
+Proof. reflexivity. Qed.
+
+Lemma mage_args_overlay : forall fixed lay f cf e,
+  eff_of (mage_args fixed lay f cf e) = overlay cf (eff_of (mage_args fixed lay f no_cflags e)).
+Proof. reflexivity. Qed.
+
+(* the flags the compiled binary is given directly: its own where given, else the front end's *)
+Definition merge_flags (f : flags) (cf : cflags) : cflags :=
+  {| c_v := match c_v cf with Some b => Some b | None => f_v f end;
+     c_l := match c_l cf with Some b => Some b | None => f_l f end;
+     c_h := match c_h cf with Some b => Some b | None => f_h f end;
+     c_t := match c_t cf with Some d => Some d | None => f_t f end |}.
+
+Theorem same_effect_flags : forall lay f cf e, roundtrip f -> no_explicit_off f ->
+  eff_of (mage_args true lay f cf e) = eff_of (bin_args (merge_flags f cf) e).
+Proof.
+  intros lay f cf e RT NO. rewrite mage_args_overlay, (same_effect_flags0 lay f e RT NO), !bin_effective.
+  unfold overlay, merge_flags, cflags_of, flag_or; simpl.
+  destruct (c_v cf), (c_l cf), (c_h cf), (c_t cf); reflexivity.
+Qed.
+
+Theorem same_effect_vars : forall lay f cf e, roundtrip f ->
+  eff_of (mage_args true lay f cf e) = eff_of (bin_args cf (e ++ vars_of f)).
+Proof.
+  intros lay f cf e RT. rewrite mage_args_overlay, (same_effect_vars0 lay f e RT).
+  unfold Flags.bin_args. rewrite (gm_parse_overlay cf). reflexivity.
+Qed.
+
+Lemma target_env_other : forall fixed lay f cf e k, String.eqb k VERBOSE = false ->
+  lookup k (mage_target_env fixed lay f cf e) = lookup k (mage_target_env fixed lay f no_cflags e).
+Proof. intros. unfold Flags.mage_target_env, gm_target_env. rewrite !lookup_setenv, H. reflexivity. Qed.
+
+Theorem accessors_mage : forall lay f cf e,
+  let te := mage_target_env true lay f cf e in
+  mg_verbose te = flag_or (c_v cf) (eff_verbose f e) /\ mg_debug te = eff_debug f e /\ mg_gocmd te = eff_gocmd f e.
+Proof.
+  intros lay f cf e te. subst te. destruct (accessors_mage0 lay f e) as (_ & D & G). repeat split.
+  - unfold Flags.mage_target_env, gm_target_env, mg_verbose, mg_bool. rewrite getenv_setenv_same, parse_bool_b01.
+    change (a_verbose (mage_args true lay f cf e)) with (flag_or (c_v cf) (a_verbose (mage_args true lay f no_cflags e))).
+    rewrite mage_a_verbose0. reflexivity.
+  - rewrite <- D. apply mg_bool_lookup. apply target_env_other. reflexivity.
+  - rewrite <- G. unfold mg_gocmd, getenv. rewrite (target_env_other true lay f cf e GOCMD eq_refl). reflexivity.
+Qed.
+
+Theorem magefile_vars : forall lay f cf e,
+  let te := mage_target_env true lay f cf e in
+  (forall k, forwarded_key k = false -> lookup k te = lookup k e) /\
+  lookup VERBOSE te = Some (b01 (flag_or (c_v cf) (eff_verbose f e))) /\
+  lookup DEBUG te = Some (b01 (eff_debug f e)) /\
+  lookup GOCMD te = Some (eff_gocmd f e) /\
+  lookup LIST te = (if flag_or (f_l f) false then Some "1" else lookup LIST e) /\
+  lookup HELP te = (if flag_or (f_h f) false then Some "1" else lookup HELP e) /\
+  lookup TIMEOUT te = (if (0 <? flag_or (f_t f) 0)%Z then Some (dur_string (flag_or (f_t f) 0%Z)) else lookup TIMEOUT e).
+Proof.
+  intros lay f cf e te. subst te. destruct (magefile_vars0 lay f e) as (O & _ & D & G & L & H & T).
+  repeat split.
+  - intros k Hk. rewrite <- (O k Hk). apply target_env_other.
+    unfold forwarded_key, in_strs in Hk. simpl in Hk. apply orb_false_elim in Hk. tauto.
+  - unfold Flags.mage_target_env, gm_target_env. rewrite lookup_setenv, String.eqb_refl.
+    change (a_verbose (mage_args true lay f cf e)) with (flag_or (c_v cf) (a_verbose (mage_args true lay f no_cflags e))).
+    rewrite mage_a_verbose0. reflexivity.
+  - rewrite <- D. apply target_env_other. reflexivity.
+  - rewrite <- G. apply target_env_other. reflexivity.
+  - rewrite <- L. apply target_env_other. reflexivity.
+  - rewrite <- H. apply target_env_other. reflexivity.
+  - rewrite <- T. apply target_env_other. reflexivity.
+Qed.
+
+(* ------------------------------------------------------------------ whole command lines *)
+Notation cl_parse := (cl_parse parse_dur).
+Notation consumed := (consumed parse_dur).
+Notation binary_cmdline := (binary_cmdline parse_dur).
+Notation mage_cmdline := (mage_cmdline parse_dur dur_string join).
+
+Lemma cflags_of_no_assigns : cflags_of_assigns [] = no_cflags.
+Proof. reflexivity. Qed.
+
+Lemma binary_cmdline_runs : forall ws e a rest, cl_parse gen_spec ws = POk a rest ->
+  binary_cmdline ws e = Runs (bin_args (cflags_of_assigns a) e) (bin_target_env (cflags_of_assigns a) e) rest.
+Proof. intros ws e a rest H. unfold Flags.binary_cmdline. rewrite H. reflexivity. Qed.
+
+Lemma binary_cmdline_rejected : forall ws e,
+  (exists a, cl_parse gen_spec ws = PBad a) <-> binary_cmdline ws e = Rejected 2.
+Proof.
+  intros ws e. unfold Flags.binary_cmdline. destruct (FlagPkg.cl_parse parse_dur gen_spec ws); split; intros H;
+    try discriminate; eauto; destruct H as [? H]; discriminate.
+Qed.
+
+(* words behind "--" are the compiled program's command line, in the environment RunCompiled built *)
+Lemma mage_cmdline_dashdash : forall fixed lay pre a post e,
+  consumed front_spec pre a -> flag_or (get_bool "h" a) false = false ->
+  mage_cmdline fixed lay (pre ++ "--" :: post) e = binary_cmdline post (child_env fixed lay (flags_of a) e).
+Proof.
+  intros fixed lay pre a post e C H. unfold Flags.mage_cmdline.
+  rewrite (consumed_then_terminator parse_dur front_spec pre a post C), H. reflexivity.
+Qed.
+
+Lemma mage_cmdline_dashdash_runs : forall lay pre a post e a' ws,
+  consumed front_spec pre a -> flag_or (get_bool "h" a) false = false -> cl_parse gen_spec post = POk a' ws ->
+  mage_cmdline true lay (pre ++ "--" :: post) e =
+    Runs (mage_args true lay (flags_of a) (cflags_of_assigns a') e)
+         (mage_target_env true lay (flags_of a) (cflags_of_assigns a') e) ws.
+Proof.
+  intros lay pre a post e a' ws C H P. rewrite (mage_cmdline_dashdash true lay pre a post e C H).
+  rewrite (binary_cmdline_runs post _ a' ws P). reflexivity.
+Qed.
+
+Lemma mage_cmdline_dashdash_rejected : forall lay pre a post e a',
+  consumed front_spec pre a -> flag_or (get_bool "h" a) false = false -> cl_parse gen_spec post = PBad a' ->
+  mage_cmdline true lay (pre ++ "--" :: post) e = Rejected 2.
+Proof.
+  intros lay pre a post e a' C H P. rewrite (mage_cmdline_dashdash true lay pre a post e C H).
+  apply binary_cmdline_rejected. eauto.
+Qed.
+
+(* without "--": the first plain word ends the flags, the compiled program gets no flag *)
+Lemma mage_cmdline_words : forall lay pre a t post e,
+  consumed front_spec pre a -> classify t = WNonFlag ->
+  mage_cmdline true lay (pre ++ t :: post) e =
+    Runs (mage_args true lay (flags_of a) no_cflags e) (mage_target_env true lay (flags_of a) no_cflags e) (t :: post).
+Proof.
+  intros lay pre a t post e C N. unfold Flags.mage_cmdline.
+  rewrite (consumed_then_word parse_dur front_spec pre a t post C N).
+  replace (flag_or (get_bool "h" a) false && false) with false by (destruct (flag_or (get_bool "h" a) false); reflexivity).
+  unfold Flags.binary_cmdline, FlagPkg.cl_parse. rewrite (parse_nonflag parse_dur gen_spec t post [] N). reflexivity.
+Qed.
+
+Lemma mage_cmdline_rejected : forall lay ws e a, cl_parse front_spec ws = PBad a -> mage_cmdline true lay ws e = Rejected 2.
+Proof. intros lay ws e a H. unfold Flags.mage_cmdline. rewrite H. reflexivity. Qed.
+
+(* -l among the compiled program's flags lists (unless -h without a word asks for the usage first) *)
+Lemma list_mode : forall a nargs d e, a_list a = true -> (a_help a && Nat.eqb nargs 0) = false -> gm_mode a nargs d e = MList.
+Proof. intros a nargs d e L H. unfold gm_mode. rewrite H, L. reflexivity. Qed.
+
+Lemma cflags_last_wins : forall a (b : bool) (d : Z),
+  c_v (cflags_of_assigns (a ++ [("v", VB b)])) = Some b /\ c_l (cflags_of_assigns (a ++ [("l", VB b)])) = Some b /\
+  c_h (cflags_of_assigns (a ++ [("h", VB b)])) = Some b /\ c_t (cflags_of_assigns (a ++ [("t", VD d)])) = Some d.
+Proof.
+  intros. unfold cflags_of_assigns, get_bool, get_dur; simpl. rewrite !last_val_snoc. repeat split.
+Qed.
+
 (* the limit: an explicit -l=false / -h=false / -t 0 / negative -t on the front end does not override
    an inherited variable (nothing is appended), on the compiled binary it does *)
 Definition toy_parse_dur (s : string) : option Z := if String.eqb s "1m30s" then Some 90000000000%Z else None.
@@ -467,7 +615,7 @@ Definition noflags := {| f_v := None; f_debug := None; f_l := None; f_h := None;
 Definition jn (a b : string) : string := (a ++ "/" ++ b)%string.
 
 Theorem explicit_off_refuted :
-  let eff_mage f e := eff_of (mage_args toy_parse_dur toy_dur_string jn true lay0 f e) in
+  let eff_mage f e := eff_of (mage_args toy_parse_dur toy_dur_string jn true lay0 f no_cflags e) in
   let eff_bin f e := eff_of (bin_args toy_parse_dur (cflags_of f) e) in
   (exists f e, f_l f = Some false /\ e_list (eff_mage f e) = true /\ e_list (eff_bin f e) = false) /\
   (exists f e, f_h f = Some false /\ e_help (eff_mage f e) = true /\ e_help (eff_bin f e) = false) /\
@@ -484,6 +632,33 @@ Proof.
   - exists {| f_v := None; f_debug := None; f_l := None; f_h := None; f_t := Some (-5000000000)%Z; f_gocmd := None; f_d := None; f_w := None |},
            []. vm_compute. auto.
 Qed.
+
+(* command lines with "--" (each replayed on the real mage) *)
+Definition toy_pd2 (s : string) : option Z :=
+  if String.eqb s "5m" then Some 300000000000%Z else if String.eqb s "5m0s" then Some 300000000000%Z
+  else if String.eqb s "1h" then Some 3600000000000%Z else if String.eqb s "-5s" then Some (-5000000000)%Z else None.
+Definition toy_ds2 (d : Z) : string := "5m0s".
+Definition mode_of (o : outcome) (has_default : bool) : option mode :=
+  match o with Runs a te ws => Some (gm_mode a (length ws) has_default te) | _ => None end.
+
+Lemma dashdash_rows :
+  let run ws := mage_cmdline toy_pd2 toy_ds2 jn true lay0 ws [] in
+  (exists a te, run ["-v=false"; "-t"; "5m"; "--"; "-v"; "-t"; "1h"; "probe"] = Runs a te ["probe"] /\
+                a_verbose a = true /\ a_timeout a = 3600000000000%Z /\ mg_verbose te = true) /\
+  mode_of (run ["--"; "-l"]) true = Some MList /\
+  run ["--"; "-x"] = Rejected 2 /\
+  (exists a te, run ["--"; "-t"; "-5s"; "probe"] = Runs a te ["probe"] /\ a_timeout a = (-5000000000)%Z) /\
+  mode_of (run ["--"; "-h"; "probe"]) true = Some MHelp /\
+  run ["--"; "-t"; "xyz"; "probe"] = Rejected 2 /\
+  (exists a te, run ["-v"; "--"] = Runs a te [] /\ a_verbose a = true) /\ mode_of (run ["-v"; "--"]) true = Some MRun /\
+  (exists a te, run ["probearg"; "--"] = Runs a te ["probearg"; "--"]) /\
+  (exists a te, run ["--"; "--"; "-l"] = Runs a te ["-l"] /\ a_list a = false) /\
+  (exists a te, run ["-t"; "5m"; "probe"] = Runs a te ["probe"] /\ a_timeout a = 300000000000%Z) /\
+  run ["--"; "--help"] = UsageShown /\ run ["-h"] = UsageShown /\
+  binary_cmdline toy_pd2 ["-v"; "-t"; "1h"; "probe"] [] =
+    Runs (bin_args toy_pd2 {| c_v := Some true; c_l := None; c_h := None; c_t := Some 3600000000000%Z |} [])
+         (bin_target_env toy_pd2 {| c_v := Some true; c_l := None; c_h := None; c_t := Some 3600000000000%Z |} []) ["probe"].
+Proof. vm_compute. repeat split; try (do 2 eexists; repeat split). Qed.
 
 (* ------------------------------------------------------------------ C11_cwd *)
 Definition nonempty (o : option string) : option string :=
@@ -539,11 +714,12 @@ Definition ex_flags : flags :=
   {| f_v := Some true; f_debug := Some false; f_l := None; f_h := None; f_t := Some 90000000000%Z;
      f_gocmd := Some "/x/gowrap"; f_d := Some "proj"; f_w := None |}.
 Definition ex_lay := {| has_magefiles_dir := true; top_has_magefiles := false |}.
+Definition ex_cf : cflags := no_cflags.
 
 Lemma nonvacuous_c11 :
   roundtrip toy_parse_dur toy_dur_string ex_flags /\ no_explicit_off ex_flags /\
-  let te := mage_target_env toy_parse_dur toy_dur_string jn true ex_lay ex_flags ex_env in
-  eff_of (mage_args toy_parse_dur toy_dur_string jn true ex_lay ex_flags ex_env) =
+  let te := mage_target_env toy_parse_dur toy_dur_string jn true ex_lay ex_flags ex_cf ex_env in
+  eff_of (mage_args toy_parse_dur toy_dur_string jn true ex_lay ex_flags ex_cf ex_env) =
     {| e_verbose := true; e_list := false; e_help := false; e_timeout := 90000000000%Z |} /\
   eff_of (bin_args toy_parse_dur (cflags_of ex_flags) ex_env) =
     {| e_verbose := true; e_list := false; e_help := false; e_timeout := 90000000000%Z |} /\
